@@ -68,7 +68,10 @@ def pred_dhg(snap, op, prev, exc):
 
 
 def run(ctx):
-    ok = build_and_audit(ctx, "XgiModel.Props.C04", ["XgiModel.Drive.HG"])
+    # Props/C04D.lean: the same theorems on the directed model (KeepsD, C04D_*), audited with this property
+    # Props/C04S.lean: the same theorems on the simplicial model (C03/SC.lean; HG.Keeps, C04S_*), audited with this property
+    ok = build_and_audit(ctx, "XgiModel.Props.C04", ["XgiModel.Drive.HG", "XgiModel.Props.C04D", "XgiModel.Props.C04S"],
+                         audit_extra=("XgiModel.Props.C04D", "XgiModel.Props.C04S"))
     ctx.rule = ("(a) add-heavy histories on xgi.Hypergraph (explicit ids incl. 0 / decreasing / strings, automatic ids, removals, "
                 "merges, relabelling) compared with the model on (outcome, edge ids in order, members, edge attrs, counter); "
                 "(b) provenance x additions on all three classes: every constructor input type, from_* converter, read_* function (real "
